@@ -23,32 +23,55 @@ package zapcore
 import "sync"
 
 type lazyWithCore struct {
-	Core
+	// originalCore is the Core given to NewLazyWith. It is never modified,
+	// so it may be read without synchronization.
+	originalCore Core
+	// core is originalCore.With(fields). It is set by initOnce and must only
+	// be read after initOnce has returned.
+	core Core
 	sync.Once
 	fields []Field
 }
+
+var _ Core = (*lazyWithCore)(nil)
 
 // NewLazyWith wraps a Core with a "lazy" Core that will only encode fields if
 // the logger is written to (or is further chained in a lon-lazy manner).
 func NewLazyWith(core Core, fields []Field) Core {
 	return &lazyWithCore{
-		Core:   core,
-		fields: fields,
+		originalCore: core,
+		fields:       fields,
 	}
 }
 
 func (d *lazyWithCore) initOnce() {
 	d.Once.Do(func() {
-		d.Core = d.Core.With(d.fields)
+		d.core = d.originalCore.With(d.fields)
 	})
 }
 
 func (d *lazyWithCore) With(fields []Field) Core {
 	d.initOnce()
-	return d.Core.With(fields)
+	return d.core.With(fields)
 }
 
 func (d *lazyWithCore) Check(e Entry, ce *CheckedEntry) *CheckedEntry {
 	d.initOnce()
-	return d.Core.Check(e, ce)
+	return d.core.Check(e, ce)
+}
+
+// Enabled is answered by the original Core: With does not change the level,
+// and the original Core is immutable, so no initialization is needed.
+func (d *lazyWithCore) Enabled(lvl Level) bool {
+	return d.originalCore.Enabled(lvl)
+}
+
+func (d *lazyWithCore) Write(e Entry, fields []Field) error {
+	d.initOnce()
+	return d.core.Write(e, fields)
+}
+
+func (d *lazyWithCore) Sync() error {
+	d.initOnce()
+	return d.core.Sync()
 }
